@@ -19,6 +19,9 @@ pub enum Exec {
     TokioCt,
     AsyncStd,
     ThreadPerTask,
+    /// the harness' own executor: background tasks are only polled from inside block_on, in an
+    /// order drawn from a seeded generator (samples the polling orders of the two background tasks)
+    Seeded,
 }
 
 #[derive(Clone, Copy, Debug, PartialEq, Eq, Hash)]
@@ -35,6 +38,7 @@ impl Flavor {
             Flavor::Async(Exec::TokioCt) => "async/tokio-current-thread",
             Flavor::Async(Exec::AsyncStd) => "async/async-std",
             Flavor::Async(Exec::ThreadPerTask) => "async/thread-per-task",
+            Flavor::Async(Exec::Seeded) => "async/seeded-polling-order",
         }
     }
     pub fn parse(s: &str) -> Option<Flavor> {
@@ -44,6 +48,7 @@ impl Flavor {
             "tokio-ct" => Flavor::Async(Exec::TokioCt),
             "async-std" => Flavor::Async(Exec::AsyncStd),
             "thread-per-task" => Flavor::Async(Exec::ThreadPerTask),
+            "seeded" => Flavor::Async(Exec::Seeded),
             _ => return None,
         })
     }
@@ -52,7 +57,7 @@ impl Flavor {
     }
     /// can another thread run cache code while one of the cache's own tasks is parked at a gate?
     pub fn gates_ok(&self) -> bool {
-        !matches!(self, Flavor::Async(Exec::TokioCt))
+        !matches!(self, Flavor::Async(Exec::TokioCt) | Flavor::Async(Exec::Seeded))
     }
 }
 
@@ -281,13 +286,25 @@ impl Drop for TaskProbe {
     }
 }
 
+/// Marks the thread as "running a background task of the cache" while the task is polled.
+struct Background<F>(F);
+impl<F: Future + Unpin> Future for Background<F> {
+    type Output = F::Output;
+    fn poll(mut self: Pin<&mut Self>, cx: &mut Context<'_>) -> Poll<F::Output> {
+        crate::val::background_enter();
+        let r = Pin::new(&mut self.0).poll(cx);
+        crate::val::background_exit();
+        r
+    }
+}
+
 fn probed(fut: futures::future::BoxFuture<'static, ()>) -> impl Future<Output = ()> + Send + 'static {
     TASKS_SPAWNED.fetch_add(1, Ordering::SeqCst);
-    async move {
+    Background(Box::pin(async move {
         let mut p = TaskProbe(false);
         fut.await;
         p.0 = true;
-    }
+    }))
 }
 
 fn tokio_mt() -> &'static tokio::runtime::Runtime {
@@ -319,6 +336,143 @@ pub fn block_on<F: Future>(e: Exec, f: F) -> F::Output {
         Exec::TokioCt => tokio_ct().block_on(f),
         Exec::AsyncStd => async_std::task::block_on(f),
         Exec::ThreadPerTask => futures::executor::block_on(f),
+        Exec::Seeded => seeded::block_on(f),
+    }
+}
+
+/// A small executor whose polling order is drawn from a seeded generator.
+pub mod seeded {
+    use std::future::Future;
+    use std::pin::Pin;
+    use std::sync::atomic::{AtomicBool, AtomicU64, Ordering};
+    use std::sync::{Arc, Condvar, Mutex};
+    use std::task::{Context, Poll, Wake, Waker};
+
+    type Task = Pin<Box<dyn Future<Output = ()> + Send + 'static>>;
+    struct Slot {
+        task: Option<Task>,
+        ready: bool,
+        done: bool,
+    }
+    static SLOTS: Mutex<Vec<Slot>> = Mutex::new(Vec::new());
+    static CV: Condvar = Condvar::new();
+    static RNG: AtomicU64 = AtomicU64::new(0x9e3779b97f4a7c15);
+    pub static POLLS: AtomicU64 = AtomicU64::new(0);
+    pub static ORDER_HASH: AtomicU64 = AtomicU64::new(0);
+
+    pub fn set_seed(seed: u64) {
+        RNG.store(seed | 1, Ordering::SeqCst);
+        ORDER_HASH.store(0, Ordering::SeqCst);
+    }
+    fn next() -> u64 {
+        let mut x = RNG.load(Ordering::Relaxed);
+        x ^= x << 13;
+        x ^= x >> 7;
+        x ^= x << 17;
+        RNG.store(x, Ordering::Relaxed);
+        x
+    }
+
+    struct TaskWaker(usize);
+    impl Wake for TaskWaker {
+        fn wake(self: Arc<Self>) {
+            self.wake_by_ref()
+        }
+        fn wake_by_ref(self: &Arc<Self>) {
+            let mut g = SLOTS.lock().unwrap_or_else(|e| e.into_inner());
+            if let Some(s) = g.get_mut(self.0) {
+                s.ready = true;
+            }
+            CV.notify_all();
+        }
+    }
+    struct MainWaker(AtomicBool);
+    impl Wake for MainWaker {
+        fn wake(self: Arc<Self>) {
+            self.wake_by_ref()
+        }
+        fn wake_by_ref(self: &Arc<Self>) {
+            self.0.store(true, Ordering::SeqCst);
+            let _g = SLOTS.lock().unwrap_or_else(|e| e.into_inner());
+            CV.notify_all();
+        }
+    }
+
+    pub fn spawn(fut: impl Future<Output = ()> + Send + 'static) {
+        let mut g = SLOTS.lock().unwrap_or_else(|e| e.into_inner());
+        // completed slots are reused so the table stays small
+        let slot = Slot { task: Some(Box::pin(fut)), ready: true, done: false };
+        if let Some(i) = g.iter().position(|s| s.done && s.task.is_none()) {
+            g[i] = slot;
+        } else {
+            g.push(slot);
+        }
+        CV.notify_all();
+    }
+
+    pub fn block_on<F: Future>(f: F) -> F::Output {
+        let mut f = std::pin::pin!(f);
+        let mw = Arc::new(MainWaker(AtomicBool::new(true)));
+        let main_waker = Waker::from(mw.clone());
+        loop {
+            // decide, by the seeded generator, whether the caller's future or the tasks go first
+            let main_first = next() % 2 == 0;
+            if main_first && mw.0.swap(false, Ordering::SeqCst) {
+                if let Poll::Ready(v) = f.as_mut().poll(&mut Context::from_waker(&main_waker)) {
+                    return v;
+                }
+            }
+            let mut ready: Vec<usize> = {
+                let g = SLOTS.lock().unwrap_or_else(|e| e.into_inner());
+                g.iter().enumerate().filter(|(_, s)| s.ready && s.task.is_some()).map(|(i, _)| i).collect()
+            };
+            // seeded shuffle of the polling order
+            for i in (1..ready.len()).rev() {
+                ready.swap(i, (next() % (i as u64 + 1)) as usize);
+            }
+            let polled_any = !ready.is_empty();
+            for id in ready {
+                let task = {
+                    let mut g = SLOTS.lock().unwrap_or_else(|e| e.into_inner());
+                    match g.get_mut(id) {
+                        // a task that another thread is polling right now keeps its wake-up pending
+                        Some(s) if s.ready && s.task.is_some() => {
+                            s.ready = false;
+                            s.task.take()
+                        }
+                        _ => None,
+                    }
+                };
+                if let Some(mut t) = task {
+                    POLLS.fetch_add(1, Ordering::Relaxed);
+                    ORDER_HASH.store(ORDER_HASH.load(Ordering::Relaxed).wrapping_mul(31).wrapping_add(id as u64 + 1), Ordering::Relaxed);
+                    let w = Waker::from(Arc::new(TaskWaker(id)));
+                    let r = t.as_mut().poll(&mut Context::from_waker(&w));
+                    let mut g = SLOTS.lock().unwrap_or_else(|e| e.into_inner());
+                    if let Some(s) = g.get_mut(id) {
+                        match r {
+                            Poll::Pending => s.task = Some(t),
+                            Poll::Ready(()) => {
+                                s.done = true;
+                                drop(t);
+                            }
+                        }
+                    }
+                }
+            }
+            if !main_first && mw.0.swap(false, Ordering::SeqCst) {
+                if let Poll::Ready(v) = f.as_mut().poll(&mut Context::from_waker(&main_waker)) {
+                    return v;
+                }
+            }
+            if !polled_any && !mw.0.load(Ordering::SeqCst) {
+                // nothing runnable: sleep until a waker fires (timers wake from the reactor thread)
+                let g = SLOTS.lock().unwrap_or_else(|e| e.into_inner());
+                if !g.iter().any(|s| s.ready && s.task.is_some()) && !mw.0.load(Ordering::SeqCst) {
+                    let _ = CV.wait_timeout(g, std::time::Duration::from_millis(20));
+                }
+            }
+        }
     }
 }
 
@@ -483,6 +637,9 @@ pub fn build(flavor: Flavor, cfg: &Cfg) -> Result<Arc<dyn Drv>, String> {
                 }),
                 Exec::AsyncStd => b.finalize(|fut| {
                     async_std::task::spawn(probed(fut));
+                }),
+                Exec::Seeded => b.finalize(|fut| {
+                    seeded::spawn(probed(fut));
                 }),
                 Exec::ThreadPerTask => b.finalize(|fut| {
                     std::thread::Builder::new()
